@@ -161,18 +161,20 @@ Definition upd_job (cj : cjob) (j : job) : cjob := mkCJob j (cj_pg cj) (cj_pguid
 
 (* addTask(pi): the placeholder is created before AddTask can fail; on failure
    the job does not get the task.  Returns the cache and whether it succeeded. *)
+Definition add_task_nodes (c : cache) (t : task) : gmap positive node * bool :=
+  match t_node t with
+  | None => (c_nodes c, true)
+  | Some n =>
+    let ni := default (placeholder n) (c_nodes c !! n) in
+    if terminated (t_status t) then (<[n := ni]> (c_nodes c), true)
+    else match node_add eps ni t with
+         | inl (ni', _) => (<[n := ni']> (c_nodes c), true)
+         | inr _ => (<[n := ni]> (c_nodes c), false)
+         end
+  end.
+
 Definition add_task (c : cache) (jo : option positive) (t : task) : cache * bool :=
-  let '(nodes1, ok) :=
-    match t_node t with
-    | None => (c_nodes c, true)
-    | Some n =>
-      let ni := default (placeholder n) (c_nodes c !! n) in
-      if terminated (t_status t) then (<[n := ni]> (c_nodes c), true)
-      else match node_add eps ni t with
-           | inl (ni', _) => (<[n := ni']> (c_nodes c), true)
-           | inr _ => (<[n := ni]> (c_nodes c), false)
-           end
-    end in
+  let '(nodes1, ok) := add_task_nodes c t in
   if negb ok then (with_hjn c (c_heap c) (c_jobs c) nodes1, false)
   else
     match jo with
@@ -183,34 +185,36 @@ Definition add_task (c : cache) (jo : option positive) (t : task) : cache * bool
     end.
 
 (* deleteTask(ti); [jo] is ti.Job, [t] the TaskInfo passed *)
-Definition delete_task (c : cache) (jo : option positive) (t : task) : cache :=
+Definition delete_task_jobs (c : cache) (jo : option positive) (t : task) : gmap positive task * gmap positive cjob :=
   let tid := t_id t in
-  let '(heap1, jobs1) :=
-    match jo with
-    | None => (delete tid (c_heap c), c_jobs c)
-    | Some j =>
-      match c_jobs c !! j with
-      | Some cj =>
-        if bool_decide (tid ∈ j_tasks (cj_job cj)) then
-          match c_heap c !! tid with
-          | Some st => (delete tid (c_heap c), <[j := upd_job cj (job_del (cj_job cj) st)]> (c_jobs c))
-          | None => (c_heap c, c_jobs c)
-          end
-        else (c_heap c, c_jobs c)
-      | None => (c_heap c, c_jobs c)
-      end
-    end in
-  let nodes1 :=
-    match t_node t with
-    | Some n =>
-      if terminated (t_status t) then c_nodes c
-      else match c_nodes c !! n with
-           | Some ni => <[n := node_remove ni tid]> (c_nodes c)
-           | None => c_nodes c
-           end
-    | None => c_nodes c
-    end in
-  with_hjn c heap1 jobs1 nodes1.
+  match jo with
+  | None => (delete tid (c_heap c), c_jobs c)
+  | Some j =>
+    match c_jobs c !! j with
+    | Some cj =>
+      if bool_decide (tid ∈ j_tasks (cj_job cj)) then
+        match c_heap c !! tid with
+        | Some st => (delete tid (c_heap c), <[j := upd_job cj (job_del (cj_job cj) st)]> (c_jobs c))
+        | None => (c_heap c, c_jobs c)
+        end
+      else (c_heap c, c_jobs c)
+    | None => (c_heap c, c_jobs c)
+    end
+  end.
+
+Definition delete_task_nodes (c : cache) (t : task) : gmap positive node :=
+  match t_node t with
+  | Some n =>
+    if terminated (t_status t) then c_nodes c
+    else match c_nodes c !! n with
+         | Some ni => <[n := node_remove ni (t_id t)]> (c_nodes c)
+         | None => c_nodes c
+         end
+  | None => c_nodes c
+  end.
+
+Definition delete_task (c : cache) (jo : option positive) (t : task) : cache :=
+  with_hjn c (fst (delete_task_jobs c jo t)) (snd (delete_task_jobs c jo t)) (delete_task_nodes c t).
 
 (* JobTerminated *)
 Definition job_terminated (cj : cjob) : bool :=
@@ -251,7 +255,7 @@ Definition update_pod (c : cache) (old new : pod) : cache :=
 (* ---------- nodes ---------- *)
 
 (* setNode: the ledger is recomputed from the tasks the NodeInfo holds *)
-Definition set_node_acc (n : node) (t : task) : node :=
+Definition node_set_acc (n : node) (t : task) : node :=
   let r := t_req t in
   match t_status t with
   | Releasing => node_with n (sub (n_idle n) r) (add (n_used n) r) (add (n_releasing n) r) (n_pipelined n) (n_tasks n)
@@ -262,13 +266,13 @@ Definition set_node_acc (n : node) (t : task) : node :=
 Definition node_reset (n : node) (o : nodeobj) : node :=
   mkNode (n_id n) true (no_alloc o) empty_res empty_res empty_res (no_alloc o) (n_tasks n).
 
-Definition set_node (n : node) (o : nodeobj) : node :=
-  fold_left set_node_acc (map snd (map_to_list (n_tasks n))) (node_reset n o).
+Definition node_set (n : node) (o : nodeobj) : node :=
+  fold_left node_set_acc (map snd (map_to_list (n_tasks n))) (node_reset n o).
 
 (* AddOrUpdateNode *)
 Definition add_or_update_node (c : cache) (o : nodeobj) : cache :=
   let nid := no_id o in
-  let ni := match c_nodes c !! nid with Some ni => set_node ni o | None => fresh_node o end in
+  let ni := match c_nodes c !! nid with Some ni => node_set ni o | None => fresh_node o end in
   with_nodes c (<[nid := ni]> (c_nodes c))
              (if bool_decide (nid ∈ c_nodelist c) then c_nodelist c else c_nodelist c ++ [nid]).
 
